@@ -56,7 +56,7 @@ UNIT = dict(
     cxxflags=['-Dconstexpr=', '-Dnoexcept=', '-Dexplicit=', '-Dprivate=public', '-Dprotected=public'],
     sabotage=[
         dict(name='pass_skips_operation_done', quick=True, target='combining_pass', lit='operation_done( *p );', to=';', count=1, groups=['combining_pass'], expect_fail=r'C23\.'),
-        dict(name='pass_applies_inactive', target='combining_pass', lit='case inactive:\n                        break;', to='case inactive:', count=1, groups=['combining_pass'], expect_fail=r'C23\.'),
+        dict(name='pass_applies_answered', target='combining_pass', lit='if ( p->op( memory_model::memory_order_acquire ) >= req_Operation ) {', to='if ( p->op( memory_model::memory_order_acquire ) >= req_Response ) {', count=1, groups=['combining_pass'], expect_fail=r'C23\.'),
         dict(name='response_before_apply', target='combining_pass', re=r'owner\.fc_apply\( static_cast<publication_record_type\*>\( p \)\);\s*operation_done\( \*p \);', to='operation_done( *p ); owner.fc_apply( static_cast<publication_record_type*>( p ));', count=1,
              groups=['combining_pass'], expect_fail=r'C23\.response_after_execution|C23\.apply_only_pending'),
         dict(name='waiter_returns_without_response', target='wait_for_combining', lit='while ( pRec->op( memory_model::memory_order_acquire ) != req_Response ) {', to='while ( pRec->op( memory_model::memory_order_acquire ) == req_EmptyRecord ) {', count=1,
